@@ -4,6 +4,7 @@
   truncation/rotation are removed by Open, nothing collides — is checked by the crash suite's directory monitor.
 -/
 import RaftWal.Proofs.WalInv2
+import RaftWal.Proofs.CrashCorollaries
 namespace RaftWal.C13
 open RaftWal
 
@@ -35,5 +36,20 @@ theorem create_never_collides (w : Wal) (base : Nat) (hlt : ∀ f ∈ w.files, f
   have hl := hlt f hf
   have hne : f.id ≠ w.nextID := by omega
   simp [Wal.newSeg, hne]
+
+/-! ## WAL level: the durability protocol (Model/Crash.lean — meta commits, file creation, rotation, truncation, Open,
+    tied to wal.go by the crash suite's action-by-action and image-by-image correspondence).  `Crash.QuiescentS` is
+    the invariant of a live process between calls; it holds after Open on an empty directory, after every completed
+    call and after every recovery (`Crash.init_quiescentS`, `Crash.call_refines_corrected`, `Crash.crash_safe_corrected`). -/
+
+/-- **after every recovery the directory is exact**: it holds exactly the files of the segments the meta store lists —
+    the orphans an interrupted truncation, rotation or base reset left are gone — and every identifier in use is below
+    NextSegmentID -/
+theorem recovered_dir_exact_any_crash (d : Crash.Disk) (hq : Crash.QuiescentS d) (op : Crash.Op) (hok : op.ok d) (k : Nat)
+    (c : Crash.CrashKind) (d1 d' : Crash.Disk) (hr : Crash.ReachRec (Crash.crashAfter d (Crash.prog d op) k c) d1)
+    (ho : Crash.openResult d1 = some d') :
+    (∀ f ∈ d'.files, ∃ s ∈ d'.md.segs, s.id = f.id) ∧ (∀ s ∈ d'.md.segs, (d'.file? s.id).isSome) ∧
+    (∀ s ∈ d'.md.segs, s.id < d'.md.nextID) :=
+  Crash.recovered_dir_exact d hq op hok k c d1 d' hr ho
 
 end RaftWal.C13
